@@ -52,6 +52,7 @@ def run(cx):
     # the compiler, which Lang!StaticBad decides
     batches = [(3, 60, n // 2, 0), (4, 90, n // 2, 0), (3, 60, n // 3, 7)]
     rejected = 0
+    timeouts_total = 0
     for bi, (depth, budget, cnt, ill) in enumerate(batches):
         cases_path = cx.path("rand%d.ndjson" % bi)
         # the first batch is evaluated through every host entry point (risor.Eval, parse + compile + vm.New + Run,
@@ -61,6 +62,11 @@ def run(cx):
                 "-budget", str(budget), "-illscoped", str(ill), "-out", cases_path] + (["-routes"] if bi == 0 else []))
         cases = vlib.read_ndjson(cases_path)
         by_id = {c["id"]: c for c in cases}
+        ntimeouts = len([c for c in cases if c["obs"].get("k") == "timeout"])
+        timeouts_total += ntimeouts
+        if ntimeouts > max(5, len(cases) // 100):
+            raise vlib.Inconclusive("%d of %d generated programs did not finish within the harness limit: the comparison with "
+                                    "Lang.tla would skip them all" % (ntimeouts, len(cases)))
         mism, unknown = langlib.tlc_conform(cx, cases, prefix="rand%d" % bi)
         total += len(cases)
         unknown_total += len(unknown)
@@ -121,6 +127,7 @@ def run(cx):
         "evaluations": total,
         "distinct_nontrivial": len(nontriv),
         "skipped_unknown": unknown_total,
+        "programs_not_finished_within_harness_limit": timeouts_total,
         "rule": "type-directed random programs (harness/ast/gen.go) rendered to source, run through the real "
                 "lexer/parser/compiler/VM, and each observation compared by TLC with Lang!RunProgram(ast); "
                 "non-trivial = distinct source containing a loop, branch, switch, call or function literal "
